@@ -650,6 +650,10 @@ func (c *handlerCtx) handleReply() {
 		if stat.OK() {
 			stat = c.pluginContainer.postReadReplyBody(c)
 		}
+		if stat.OK() {
+			// the reply body could not be read into the result (see startReadAndHandle)
+			stat = c.stat
+		}
 		c.callCmd.stat = stat
 	}
 }
